@@ -87,7 +87,7 @@ def run(ctx):
     ctx.trusted += ["hand model coq/theories/C04/Invert.v; tools/checks/C04.py generators, bit-exact differ, oracle",
                     "FloatAxioms (Coq stdlib) via C03.BBox"]
     ctx.gate()
-    ctx.coq_theorems("C04/Invert", ["in_image_spec", "iterative_masks", "masking_off_ignores_box",
+    ctx.coq_theorems("C04/Invert", ["in_image_spec", "in_image_needs_finite", "nonfinite_pixel_not_in_image", "in_image_without_box", "iterative_masks", "masking_off_ignores_box",
                                     "invert_masks_when_analytic_masks", "invert_analytic_unmasked_refuted"])
     pins.check(ctx, PINS)
     rng = ctx.rng
